@@ -830,7 +830,16 @@ func (w *renderer) node(n *node, ind string) {
 	w.writeLine(ind + head)
 	for _, b := range n.body {
 		if b == "" {
-			w.writeLine("")
+			// an "empty" line of a text body: truly empty, or only blanks - fewer or more than the
+			// indentation of the text around it
+			switch w.r.Intn(4) {
+			case 0:
+				w.writeLine(strings.Repeat(" ", w.r.Range(1, len(ind)+4)))
+			case 1:
+				w.writeLine("\t")
+			default:
+				w.writeLine("")
+			}
 		} else {
 			w.writeLine(ind + "  " + b)
 		}
